@@ -1,5 +1,6 @@
 (* Prototype: C04 on the index mirror of Chain.v: the height map holds, per height, the LAST admitted record in key order *)
-From RBP Require Import Bytes Chain.
+From RBP Require Import Bytes Index.
+From RBP Require Published.
 
 Lemma hm_get_put h k v m : hm_get h (hm_put k v m) = if k =? h then Some v else hm_get h m.
 Proof.
@@ -10,7 +11,6 @@ Proof.
   - destruct (k' =? h); [reflexivity|exact IH].
 Qed.
 
-Definition admitted (r:irec) : bool := 0 <? N.land (r_status r) 12.
 (* what the last admitted record of height h is, scanning in key order *)
 Fixpoint last_admitted (h:N) (kvs:list (bytes * bytes)) (cur:option irec) : option irec :=
   match kvs with
@@ -29,7 +29,7 @@ Proof.
   - destruct k as [|b key]; [discriminate|].
     destruct (N.eq_dec b 98) as [->|Hb].
     + destruct (decode_record key v) as [rec| | |] eqn:E; try discriminate.
-      unfold admitted. destruct (0 <? N.land (r_status rec) 12) eqn:Ea; cbn [andb].
+      destruct (admitted rec) eqn:Ea; cbn [andb].
       * rewrite (IH _ _ h H), hm_get_put. reflexivity.
       * exact (IH _ _ h H).
     + assert (Hskip : forall A (x y:A), match b with 98 => x | _ => y end = y).
@@ -38,12 +38,15 @@ Proof.
 Qed.
 
 (* header-only records (validity below CHAIN, no HAVE_DATA) are never admitted, whatever else is set among the other bits *)
-Lemma header_only_not_admitted r : N.land (r_status r) 12 = 0 -> admitted r = false.
-Proof. unfold admitted. intros ->. reflexivity. Qed.
+Lemma header_only_not_admitted r : N.land (r_status r) Published.status_mask = 0 -> admitted r = false.
+Proof. unfold admitted, has. intros ->. reflexivity. Qed.
+(* exhaustively over the status byte: admitted exactly when bit 2 (validity >= CHAIN) or bit 3 (HAVE_DATA) is set *)
+Lemma admitted_status_byte : forallb (fun s => Bool.eqb (has s Published.status_mask) (N.testbit s 2 || N.testbit s 3))
+                                     (map N.of_nat (seq 0 256)) = true.
+Proof. vm_compute. reflexivity. Qed.
 Print Assumptions load_index_last.
 
 (* ---------- C03: Bitcoin Core VarInt and index records, on the Chain.v mirror ---------- *)
-Definition MAX64 : N := 18446744073709551615.
 Fixpoint enc_cont (fuel:nat) (m:N) : bytes :=
   match fuel with O => [] | S f => if m <=? 127 then [m + 128] else enc_cont f (m / 128 - 1) ++ [m mod 128 + 128] end.
 Definition enc_varint (n:N) : bytes := if n <=? 127 then [n] else enc_cont 10 (n / 128 - 1) ++ [n mod 128].
@@ -89,22 +92,122 @@ Proof.
     + unfold MAX64 in *. lia.
 Qed.
 
-(* CDiskBlockIndex as Bitcoin Core writes it, for records that carry data (the only ones the parser keeps) *)
-Definition enc_record (version height status ntx file pos:N) (tail:bytes) : bytes :=
-  enc_varint version ++ enc_varint height ++ enc_varint status ++ enc_varint ntx ++ enc_varint file ++ enc_varint pos ++ tail.
+(* CDiskBlockIndex as Bitcoin Core writes it: nFile only with HAVE_DATA|HAVE_UNDO, nDataPos only with HAVE_DATA, nUndoPos only with HAVE_UNDO *)
+Definition enc_record (version height status ntx file pos undo:N) (tail:bytes) : bytes :=
+  enc_varint version ++ enc_varint height ++ enc_varint status ++ enc_varint ntx
+  ++ (if has status Published.file_mask then enc_varint file else [])
+  ++ (if has status Published.pos_mask then enc_varint pos else [])
+  ++ (if has status Published.BLOCK_HAVE_UNDO then enc_varint undo else []) ++ tail.
 
-Theorem decode_record_enc key version height status ntx file pos tail :
+Theorem decode_record_enc key version height status ntx file pos undo tail :
   length key = 32%nat -> version <= MAX64 -> height <= MAX64 -> status <= MAX64 -> ntx <= MAX64 -> file <= MAX64 -> pos <= MAX64 ->
-  decode_record key (enc_record version height status ntx file pos tail) =
-    Ok {| r_hash := key; r_height := height; r_status := status; r_file := file; r_off := pos |}.
+  decode_record key (enc_record version height status ntx file pos undo tail) =
+    Ok {| r_hash := key; r_height := height; r_status := status;
+          r_file := if has status Published.file_mask then file else 0; r_off := if has status Published.pos_mask then pos else 0 |}.
 Proof.
   intros Hk Hv Hh Hs Hn Hf Hp. unfold decode_record, enc_record. rewrite Hk. cbn [Nat.eqb negb].
   erewrite bind_ok by (apply read_varint_enc; assumption).
   erewrite bind_ok by (apply read_varint_enc; assumption).
   erewrite bind_ok by (apply read_varint_enc; assumption).
   erewrite bind_ok by (apply read_varint_enc; assumption).
-  erewrite bind_ok by (apply read_varint_enc; assumption).
-  erewrite bind_ok by (apply read_varint_enc; assumption).
-  reflexivity.
+  destruct (has status Published.file_mask); destruct (has status Published.pos_mask);
+    repeat (first [erewrite bind_ok by (apply read_varint_enc; assumption) | erewrite bind_ok by reflexivity]); reflexivity.
 Qed.
 Print Assumptions decode_record_enc.
+
+(* ---------- C03: blk file names (blkfile.rs:126) ---------- *)
+From RBP Require Import Render.
+Lemma starts_with_app p x : starts_with p (p ++ x) = Some x.
+Proof. induction p as [|c p IH]; [reflexivity|]. cbn. now rewrite N.eqb_refl. Qed.
+Lemma parse_digits_app a b acc : parse_digits (a ++ b) acc = match parse_digits a acc with Some x => parse_digits b x | None => None end.
+Proof.
+  revert acc. induction a as [|c a IH]; intro acc; [reflexivity|]. cbn [app parse_digits].
+  destruct ((48 <=? c) && (c <=? 57)); [|reflexivity]. destruct (MAX64 <? acc * 10 + (c - 48)); [reflexivity|apply IH].
+Qed.
+Lemma parse_digits_zeros k : parse_digits (repeat 48 k) 0 = Some 0.
+Proof. induction k as [|k IH]; [reflexivity|]. cbn [repeat parse_digits]. exact IH. Qed.
+Lemma parse_digits_dec_rev : forall f n, n < 10 ^ N.of_nat f -> n <= MAX64 -> parse_digits (rev (dec_rev f n)) 0 = Some n.
+Proof.
+  induction f as [|f IH]; intros n H HM.
+  - change (10 ^ N.of_nat 0) with 1 in H. replace n with 0 by lia. reflexivity.
+  - cbn [dec_rev]. destruct (n <? 10) eqn:E.
+    + cbn [rev app parse_digits]. replace ((48 <=? 48 + n) && (48 + n <=? 57)) with true by lia.
+      replace (MAX64 <? 0 * 10 + (48 + n - 48)) with false by (unfold MAX64; lia). f_equal. lia.
+    + cbn [rev]. rewrite parse_digits_app, IH.
+      * cbn [parse_digits]. replace ((48 <=? 48 + n mod 10) && (48 + n mod 10 <=? 57)) with true by lia.
+        replace (n / 10 * 10 + (48 + n mod 10 - 48)) with n by lia.
+        replace (MAX64 <? n) with false by lia. reflexivity.
+      * rewrite Nnat.Nat2N.inj_succ, N.pow_succ_r' in H. lia.
+      * lia.
+Qed.
+Lemma dec_first_digit n : exists c r, dec n = c :: r /\ 48 <= c <= 57.
+Proof.
+  unfold dec. pose proof (dec_rev_nonempty 25 n ltac:(lia)) as Hne. pose proof (dec_rev_all_digits 25 n) as F.
+  destruct (rev (dec_rev 25 n)) as [|c r] eqn:E.
+  - apply (f_equal (@length N)) in E. rewrite rev_length in E. change (length (@nil N)) with 0%nat in E. lia.
+  - exists c, r. split; [reflexivity|]. rewrite Forall_forall in F. apply F. apply in_rev. rewrite E. now left.
+Qed.
+
+(* a file named blk<zero padding><decimal n>.dat, any padding width, is file number n *)
+Theorem blk_name_parses n k : n <= MAX64 ->
+  parse_blk_index (Published.blk_prefix ++ repeat 48 k ++ dec n ++ Published.blk_ext) = Some n.
+Proof.
+  intro H. unfold parse_blk_index. rewrite starts_with_app.
+  replace (rev (Published.blk_prefix ++ repeat 48 k ++ dec n ++ Published.blk_ext)) with (rev Published.blk_ext ++ rev (Published.blk_prefix ++ repeat 48 k ++ dec n))
+    by (now rewrite !rev_app_distr, <- !app_assoc).
+  rewrite starts_with_app.
+  replace (Nat.sub (length (repeat 48 k ++ dec n ++ Published.blk_ext)) (length Published.blk_ext)) with (length (repeat 48 k ++ dec n)) by (rewrite !app_length; lia).
+  rewrite app_assoc, firstn_app, Nat.sub_diag, firstn_all. cbn [firstn]. rewrite app_nil_r.
+  assert (Hd : parse_digits (repeat 48 k ++ dec n) 0 = Some n).
+  { rewrite parse_digits_app, parse_digits_zeros. unfold dec. apply parse_digits_dec_rev; [|exact H].
+    change (N.of_nat 25) with 25. unfold MAX64 in H. assert (18446744073709551615 < 10 ^ 25) by reflexivity. lia. }
+  unfold parse_u64. destruct k as [|k].
+  - cbn [repeat app] in *. destruct (dec_first_digit n) as (c & r & E & Hc). rewrite E in *.
+    destruct (N.eq_dec c 43); [lia|]. destruct c as [|p]; [exact Hd|]. repeat (destruct p as [p|p|]; try exact Hd); lia.
+  - cbn [repeat app] in *. exact Hd.
+Qed.
+(* names that do not start with the prefix or do not end with the extension are not blk files *)
+Theorem non_blk_name_prefix name : starts_with Published.blk_prefix name = None -> parse_blk_index name = None.
+Proof. intro H. unfold parse_blk_index. now rewrite H. Qed.
+Theorem non_blk_name_suffix name : starts_with (rev Published.blk_ext) (rev name) = None -> parse_blk_index name = None.
+Proof. intro H. unfold parse_blk_index. destruct (starts_with Published.blk_prefix name); [now rewrite H|reflexivity]. Qed.
+
+(* database keys that are not block records ('b' ++ hash) are ignored *)
+Theorem non_b_key_ignored k v r m : (match k with 98 :: _ => False | [] => False | _ => True end) -> load_index ((k, v) :: r) m = load_index r m.
+Proof.
+  intro H. cbn [load_index]. destruct k as [|b key]; [contradiction|].
+  destruct b as [|p]; [reflexivity|]. repeat (destruct p as [p|p|]; try reflexivity). contradiction.
+Qed.
+
+(* ---------- C04: which record is kept per height ---------- *)
+(* if the only admitted record of height h (in the whole database) is `a`, the index delivers `a` at h *)
+Theorem unique_admitted_is_kept kvs idx h a : load_index kvs [] = Ok idx -> last_admitted h kvs None = Some a -> hm_get h idx = Some a.
+Proof. intros H L. now rewrite (load_index_last kvs [] idx h H). Qed.
+(* C04 for all indexes outside the known class: if at every height the last admitted record in key order is the active one,
+   the height map is exactly the active chain *)
+Theorem C04_partial kvs idx (active : N -> option irec) :
+  load_index kvs [] = Ok idx -> (forall h, last_admitted h kvs None = active h) -> forall h, hm_get h idx = active h.
+Proof. intros H A h. rewrite (load_index_last kvs [] idx h H). apply A. Qed.
+
+(* the general statement is false of the code (known finding F-C04): a stale sibling WITH block data whose hash sorts after the active
+   block's replaces the active block at its height *)
+Definition hashA : bytes := repeat 0x11 32. Definition hashB : bytes := repeat 0x22 32.
+Definition rec_active : bytes * bytes := (98 :: hashA, enc_record 1 2 0x1d 1 0 8 9 (repeat 0 80)).       (* VALID_SCRIPTS|HAVE_DATA|HAVE_UNDO, height 2 *)
+Definition rec_stale : bytes * bytes := (98 :: hashB, enc_record 1 2 0x0b 1 0 300 0 (repeat 0 80)).     (* VALID_TRANSACTIONS|HAVE_DATA, height 2 *)
+Theorem C04_refuted : exists kvs idx r, load_index (sort_kv kvs) [] = Ok idx /\ hm_get 2 idx = Some r /\ r_hash r = hashB /\ r_off r = 300.
+Proof. exists [rec_stale; rec_active]. eexists. eexists. split; [vm_compute; reflexivity|]. split; [vm_compute; reflexivity|]. split; reflexivity. Qed.
+(* while a header-only competitor (no data, validity below CHAIN) never displaces anything, for every status value *)
+Theorem header_only_never_displaces kvs idx h key v rec :
+  load_index kvs [] = Ok idx -> decode_record key v = Ok rec -> N.land (r_status rec) Published.status_mask = 0 ->
+  forall kvs1 kvs2, kvs = kvs1 ++ (98 :: key, v) :: kvs2 -> hm_get h idx = last_admitted h (kvs1 ++ kvs2) None.
+Proof.
+  intros H D S kvs1 kvs2 ->. rewrite (load_index_last _ [] idx h H). cbn [hm_get]. clear H.
+  generalize (@None irec). induction kvs1 as [|[[|b0 key0] v0] r IH]; intro cur.
+  - cbn [app last_admitted]. rewrite D, (header_only_not_admitted rec S). cbn [andb]. reflexivity.
+  - cbn [app last_admitted]. apply IH.
+  - cbn [app last_admitted]. destruct (N.eq_dec b0 98) as [->|Hb].
+    + destruct (decode_record key0 v0); [apply IH|reflexivity|reflexivity|reflexivity].
+    + assert (Hskip : forall A (x y:A), match b0 with 98 => x | _ => y end = y).
+      { intros A x y. destruct b0 as [|p]; [reflexivity|]. repeat (destruct p as [p|p|]; try reflexivity). exfalso; apply Hb; reflexivity. }
+      rewrite !Hskip. apply IH.
+Qed.
